@@ -414,14 +414,15 @@ static void _GD_Delete(DIRFILE *restrict D, gd_entry_t *restrict E,
       qsort(del_list + 1, n_del - 1, sizeof del_list[0], _GD_EntryCmp);
 
       /* Remove all meta fields -- there are no RAW fields here */
-      for (i = 1, j = 0; i < n_del && j < D->n_entries; ++j) {
+      for (i = 1, j = 0; i < n_del && j < D->n_entries; ) {
         if (D->entry[j] == del_list[i]) {
           _GD_FreeE(D, D->entry[j], 1);
           memmove(D->entry + j, D->entry + j + 1,
               sizeof(gd_entry_t *) * (D->n_entries - j - 1));
           D->n_entries--;
-          i++;
-        }
+          i++; /* entry[j] is now the next entry: don't skip it */
+        } else
+          ++j;
       }
     }
 
